@@ -413,6 +413,10 @@ class Run:
             ev["print_assumptions"] = assumptions_text
         if os.environ.get("PV_REPLAY") != "1":      # a replay re-runs the check without touching the evidence
             (EVID / f"{self.prop}.json").write_text(json.dumps(ev, indent=1, default=str))
+        elif os.environ.get("PV_EVIDENCE_DIR"):       # e.g. thorough-tier soak runs kept beside the quick evidence
+            alt = Path(os.environ["PV_EVIDENCE_DIR"])
+            alt.mkdir(parents=True, exist_ok=True)
+            (alt / f"{self.prop}.json").write_text(json.dumps(ev, indent=1, default=str))
         print(f"[{self.prop}] done rc={rc} wall={ev['wall_s']}s", flush=True)
         return rc
 
